@@ -34,14 +34,20 @@ GrammarTokens == [
   selector |-> <<"gene", "/", "=", "\\", "[", "(", "*", "a", ".">>,
   date     |-> <<"29", "31", "00", "-", "FEB", "Feb", "02", "13", "2020", "1900", "x">>,
   molecule |-> <<"DNA", "RNA", "AA", "ss-", "ds-", "mRNA", "x">>,
-  topology |-> <<"linear", "circular", "Linear", "CIRCULAR", "x", "">> ]
-Grammars == <<"locator", "modifier", "selector", "date", "molecule", "topology">>
+  topology |-> <<"linear", "circular", "Linear", "CIRCULAR", "x", "">>,
+  location |-> <<"1", "12", "..", ".", "^", "<", ">", ",", "(", ")", "join(", "order(", "complement(", "x">>,
+  \* a standalone feature table (gts annotate, FEATURES block): whole lines as tokens
+  ftable   |-> <<"     gene            1..2\n", "gene 3..4\n", "     CDS             join(1..2,\n", "                     3..4)\n",
+                 "                     /gene=\"x\"\n", "                     /pseudo\n", "                     /note=\"a\n",
+                 "                     b\"\n", "                     /=\n", "                     /codon_start=1\n", "\n",
+                 "   /gene=\"y\"\n", "     gene            \n", "     misc_feature", "\r\n">> ]
+Grammars == <<"locator", "modifier", "selector", "date", "molecule", "topology", "location", "ftable">>
 RECURSIVE StrOf(_, _, _)
 StrOf(toks, c, n) == IF n = 0 THEN "" ELSE StrOf(toks, c \div Len(toks), n - 1) \o toks[(c % Len(toks)) + 1]
 RECURSIVE Pw(_, _)
 Pw(b, n) == IF n = 0 THEN 1 ELSE b * Pw(b, n - 1)
 GrStrings(g) == UNION {{StrOf(GrammarTokens[g], c, n) : c \in 0..(Pw(Len(GrammarTokens[g]), n) - 1)} : n \in 0..MaxTok}
-GrSeq == SetToSeq(UNION {{<<g, s>> : s \in GrStrings(g)} : g \in {"locator", "modifier", "selector", "date", "molecule", "topology"}})
+GrSeq == SetToSeq(UNION {{<<g, s>> : s \in GrStrings(g)} : g \in {Grammars[j] : j \in 1..Len(Grammars)}})
 
 NItems == IF Mode = "genbank" THEN Len(GbSeq) ELSE (Len(GrSeq) + Batch - 1) \div Batch
 Picked == SelectSeq([j \in 1..NItems |-> j], LAMBDA j : j % Stride = Offset % Stride)
